@@ -5,6 +5,7 @@
 -/
 import Axelar.Proofs.ItsLock
 import Axelar.Proofs.GwHistory
+import Axelar.Proofs.ItsLedger
 namespace Axelar.Props.C08
 open Axelar Axelar.ItsW Axelar.Its Codec
 
@@ -206,6 +207,138 @@ theorem executed_message_cannot_start (C : Crypto) (w : World) (ops : List World
     have he : t.w.gw.messages (sc, mid) = .executed := by
       rw [ht]; exact (World.run_life C ops w (sc, mid)).1 hex
     rw [he] at ha; cases ha
+
+/-! ### Where the tokens are, step by step (ledger equations over every account and asset) -/
+
+/-- **Step 1 moves exactly the amount into the service** (out of a lock/unlock manager's
+    holdings, or freshly minted by a mint/burn manager) and registers, as its last pending call,
+    the call to the destination carrying exactly that amount of exactly that token; nothing
+    else moves. -/
+theorem start_moves_the_amount_into_the_service (C : Crypto) (cx : ICtx) (dest oc sc mid sa ph osa data tid : Bytes)
+    (amount : Nat) (t t' : Tx) (tm : Bytes) (st : TokenManager.State)
+    (htm : t.w.its.tmAddress tid = tm) (hst : t.w.tms tm = st)
+    (hkgw : t.w.kind t.w.its.gateway = some .gateway) (hktm : t.w.kind tm = some .tokenManager)
+    (h : executeWithToken C cx dest oc sc mid sa ph osa data tid amount t = some ((), t')) :
+    World.Led t.w t'.w (giveOut st tm amount) (World.pt cx.self (TokenManager.tokOfBytes st.tokenIdentifier) amount) ∧
+    ∃ ds d, t'.pend = ds ++ [d] ∧ d.to = dest ∧
+      d.egld = (payOf (TokenManager.tokOfBytes st.tokenIdentifier) amount).1 ∧
+      d.esdt = (payOf (TokenManager.tokOfBytes st.tokenIdentifier) amount).2.map
+        (fun p => (World.asciiString p.1, p.2.1, p.2.2)) := by
+  simp only [executeWithToken, run_bind] at h
+  cases h1 : gatewayIsApproved C cx sc mid sa ph t with
+  | none => simp [h1] at h
+  | some r1 =>
+    obtain ⟨ok, t1⟩ := r1
+    simp only [h1, run_require] at h
+    cases ok with
+    | false => simp at h
+    | true =>
+      simp only [if_true] at h
+      have ho := gatewayIsApproved_only C cx sc mid sa ph t t1 true hkgw h1
+      have htm1 : t1.w.its.tmAddress tid = tm := by rw [ho.its]; exact htm
+      have hst1 : t1.w.tms tm = st := by rw [ho.tms]; exact hst
+      have hk1 : t1.w.kind tm = some .tokenManager := by rw [ho.kind]; exact hktm
+      cases h2 : tmGiveToken C cx tid cx.self amount t1 with
+      | none => simp [h2] at h
+      | some r2 =>
+        obtain ⟨⟨tokRaw, amt⟩, t2⟩ := r2
+        simp only [h2, run_getI, run_require] at h
+        obtain ⟨_, hr, hl⟩ := tmGiveToken_led C cx tid cx.self amount t1 t2 (tokRaw, amt) tm st htm1 hst1 hk1 h2
+        simp only [Prod.mk.injEq] at hr
+        obtain ⟨e1, e2⟩ := hr
+        subst e1
+        subst e2
+        by_cases hl2 : (!t2.w.its.lock (sc, mid)) = true
+        · simp only [hl2, if_true, run_setI, addPend_run, Option.some.injEq, Prod.mk.injEq, true_and] at h
+          subst h
+          refine ⟨?_, t2.pend, _, rfl, rfl, rfl, ?_⟩
+          · have hl0 : World.Led t.w t1.w World.nil World.nil := ho.led
+            have hl3 : World.Led t2.w _ World.nil World.nil := World.Led.of_accts (w := t2.w) rfl
+            refine ((hl0.trans hl).trans hl3).conv ?_
+            intro x k
+            simp only [World.plus, World.nil]
+            omega
+          · simp [TokenManager.tokOfBytes]
+        · simp [hl2] at h
+
+/-- **Step 2, destination succeeds: it receives exactly what the pending call carries** (the
+    amount registered by step 1), out of the service's balance; nothing else moves. -/
+theorem delivery_pays_the_destination (C : Crypto) (w w' : World) (id : Nat) (vals rs : List Bytes)
+    (evs : List Event) (pd : List PendDesc) (p : Pending) (hp : World.findPending w.pending id = some p)
+    (h : World.deliver C w id (.ok vals) = (w', .ok rs evs pd)) :
+    World.Led w w'
+      (fun x k => if x = p.src then World.payAmt p.desc.egld (World.esdtB p.desc.esdt) k else 0)
+      (fun x k => if x = p.desc.to then World.payAmt p.desc.egld (World.esdtB p.desc.esdt) k else 0) := by
+  unfold World.deliver at h
+  simp only [hp] at h
+  split at h
+  · cases h
+  · cases hpay : World.pay w p.src p.desc.to p.desc.egld (World.esdtB p.desc.esdt) with
+    | none => simp [hpay] at h
+    | some w1 =>
+      simp only [hpay, Prod.mk.injEq] at h
+      obtain ⟨rfl, _⟩ := h
+      have hl := World.led_pay _ _ _ _ _ _ hpay
+      exact (hl.trans (World.Led.of_accts (w := w1) rfl)).conv (by intro x k; simp only [World.plus, World.nil]; omega)
+
+/-- **Step 2, destination fails: nothing moves** (the tokens stay with the service until the
+    callback takes them back). -/
+theorem failed_delivery_moves_nothing (C : Crypto) (w w' : World) (id : Nat) (o : Outcome)
+    (h : World.deliver C w id .fail = (w', o)) : w'.accts = w.accts := by
+  unfold World.deliver at h
+  split at h
+  · cases h; rfl
+  · split at h
+    · cases h; rfl
+    · cases h; rfl
+
+/-- **Step 3 after a successful delivery moves nothing**: the destination keeps exactly the
+    amount, the service and the manager keep what they had after step 2. -/
+theorem success_callback_moves_nothing (C : Crypto) (cx : ICtx) (sc mid sa ph tid tokRaw : Bytes)
+    (amount : Nat) (t t' : Tx) (hk : t.w.kind t.w.its.gateway = some .gateway)
+    (h : executeWithTokenCallback C cx sc mid sa ph tid tokRaw amount true t = some ((), t')) :
+    World.Led t.w t'.w World.nil World.nil := by
+  simp only [executeWithTokenCallback, run_bind, run_getI, run_setI, if_true] at h
+  cases hv : gatewayValidate C cx sc mid sa ph
+      { t with w := { t.w with its := { t.w.its with lock := upd t.w.its.lock (sc, mid) false } } } with
+  | none => simp [hv] at h
+  | some r =>
+    obtain ⟨b, t1⟩ := r
+    simp only [hv, run_emit, Option.some.injEq, Prod.mk.injEq, true_and] at h
+    subst h
+    have ho := gatewayValidate_only C cx sc mid sa ph _ t1 b (by exact hk) hv
+    exact ((World.Led.of_accts (w := t.w) (w' := { t.w with its := { t.w.its with lock := upd t.w.its.lock (sc, mid) false } }) rfl).trans
+      ho.led).conv (by intro x k; simp only [World.plus, World.nil])
+
+/-- **Step 3 after a failed delivery, when it goes through: exactly the amount returns** from the
+    service to the manager's custody (lock/unlock) or is burned (mint/burn); the token is the
+    manager's token; nothing else moves.  (When the manager rejects the take-back the whole
+    callback fails and the tokens stay in the service: finding F1.) -/
+theorem failure_callback_returns_the_amount (C : Crypto) (cx : ICtx) (sc mid sa ph tid tokRaw : Bytes)
+    (amount : Nat) (t t' : Tx) (tm : Bytes) (st : TokenManager.State)
+    (htm : t.w.its.tmAddress tid = tm) (hst : t.w.tms tm = st) (hktm : t.w.kind tm = some .tokenManager)
+    (h : executeWithTokenCallback C cx sc mid sa ph tid tokRaw amount false t = some ((), t')) :
+    GasService.tokOfBytes tokRaw = TokenManager.tokOfBytes st.tokenIdentifier ∧
+    World.Led t.w t'.w (World.pt cx.self (GasService.tokOfBytes tokRaw) amount) (takeIn st tm amount) ∧
+    t'.w.its.lock (sc, mid) = false := by
+  simp only [executeWithTokenCallback, run_bind, run_getI, run_setI, Bool.false_eq_true, if_false] at h
+  cases hk : tmTakeToken C cx tid (GasService.tokOfBytes tokRaw) amount
+      { t with w := { t.w with its := { t.w.its with lock := upd t.w.its.lock (sc, mid) false } } } with
+  | none => simp [hk] at h
+  | some r =>
+    obtain ⟨u, t1⟩ := r
+    cases u
+    simp only [hk, run_emit, Option.some.injEq, Prod.mk.injEq, true_and] at h
+    subst h
+    obtain ⟨_, htok, hl, _⟩ := tmTakeToken_led C cx tid (GasService.tokOfBytes tokRaw) amount _ t1 tm st
+      (by exact htm) (by exact hst) (by exact hktm) hk
+    have hits := tmTakeToken_keeps_its C cx tid (GasService.tokOfBytes tokRaw) amount _ t1 hk
+    refine ⟨htok, ?_, ?_⟩
+    · exact ((World.Led.of_accts (w := t.w) (w' := { t.w with its := { t.w.its with lock := upd t.w.its.lock (sc, mid) false } }) rfl).trans
+        hl).conv (by intro x k; simp only [World.plus, World.nil]; omega)
+    · show t1.w.its.lock (sc, mid) = false
+      rw [hits]
+      simp [upd]
 
 /-! ### Non-vacuity (test) -/
 example : (upd (fun (_ : Bytes × Bytes) => true) ([1], [2]) false) ([1], [2]) = false := by decide
